@@ -34,7 +34,9 @@ func (c04) Budget(tier string) (int, int, int) {
 	}
 	return 50, 1 << 30, 120
 }
-func (c04) Gen(r *core.Rng, tier string, idx int) *core.Trace { return genExt4History(r, tier, idx, false) }
+func (c04) Gen(r *core.Rng, tier string, idx int) *core.Trace {
+	return genExt4History(r, tier, idx, false)
+}
 func (c04) Exec(t *core.Trace) *core.Result {
 	res, _ := execExt4History(t, "C04")
 	return res
